@@ -1,5 +1,6 @@
 """Per-property manifest texts (level, note, technique). Source of /verif/MANIFEST.json via tools/gen_manifest.py."""
 
+TOL_NOTE = " Every check also runs the tolerance census T-tol over the property's anchor modules: a tolerance comparison (allclose / isclose / array_equiv) in a decision position must be in the reviewed table."
 NOT_YET = "no check registered yet in this revision of /verif (static rules for it are designed in DESIGN.md but not armed)"
 
 NOT_APPLICABLE = {
@@ -30,7 +31,7 @@ CLAIMED = {
                 "combined parameter node replaces the same-named node in every member graph; concatenation and diagonal blocks use consecutive edges for rows and "
                 "columns; shared sources are accumulated (+=) into both transposed off-diagonal blocks, guarded by enabled and axis, with edges looked up through the "
                 "fit-index -> data-slot map; the joint covariance is y + x o outer(d, d); _update_singular_fits post-dominates result production in do_fit and "
-                "asymmetric_parameter_errors and hands each member the sub-blocks at the positions of its own parameter names; fix / release are mirrored into members.",
+                "asymmetric_parameter_errors and hands each member the sub-blocks at the positions of its own parameter names; fix / release are mirrored into members. Added: chi2-capable member classes provide the nodes the partition aliases (P-nodes, one known finding: HistFit); the smallest x uncertainty is read from the live joint x covariance and the slopes depend on it.",
         "note": "Numerical equivalence with a joint fit of the concatenated data is not decided. Several wiring clauses are shape rules over the whitespace-normalised "
                 "statements of MultiFit._init_nexus / _init_shared_error_nodes; the accumulation, symmetry, guard and index-map clauses are structural (they accept the "
                 "refactoring of the block loop into slices).",
@@ -42,7 +43,7 @@ CLAIMED = {
                 "in the single-pass filler the entry/edge comparison is `>=` (half-open bins, checked as an ordering over def-use roles, not as text), "
                 "every enumerated loop path that consumes an entry increments exactly one count by one and records the entry as processed, leftovers are "
                 "added to the overflow with their number, the pending list is cleared; rebin zeroes the counts and re-queues all processed entries "
-                "before clearing them. Each is a necessary condition of 'every entry counted exactly once, independent of batching and reads'.",
+                "before clearing them. Each is a necessary condition of 'every entry counted exactly once, independent of batching and reads'. Added: a vectorised filler is accepted iff every bin index comes from a look-up over the stored edges (searchsorted side='right' / digitize), never from arithmetic on (x - low) / width (G5).",
         "note": "Independence of batching as a dynamic statement follows from these plus sorting and is not re-proved. A rewrite of the filler into a "
                 "different algorithm (e.g. np.searchsorted) is reported as ANALYSIS-ERROR (idiom not recognised), never as a violation.",
         "technique": "typestate (flush-before-read) dominance check + path enumeration over the filler loop with def-use role inference",
@@ -55,7 +56,7 @@ CLAIMED = {
                 "directly or in all callers (Cpm); the total is summed after the lazy values were refreshed (Cfirst); accumulation loops skip disabled "
                 "sources (D7); CovMat writers clear each derived cache (Ccov); lazy getters test the field they return (Clazy); the reference setter "
                 "clears the opposite representation (Cref). Each obligation is a necessary condition of 'total = sum of enabled sources at the current "
-                "reference after any history'.",
+                "reference after any history'. Added: canonical forms of the per-source covariance, of the matrix conversions (read through helpers of the same class) and of the total; err / cor_mat / inverse read from the same total.",
         "note": "Numerical clauses (symmetry/PSD, floating-point exactness of disable->enable, the covariance formula itself) are not decided here. "
                 "Direct mutation of error objects obtained through get_error() is outside the statement (documented as requiring a manual cache clear). "
                 "Reasoned exemptions are listed in kv/rules/c02.py (EXEMPT_*).",
@@ -70,7 +71,7 @@ CLAIMED = {
                 "result dictionary, report and preface comment read the live properties under the documented keys (key -> property table); the decimal-place formulas of "
                 "ScalarFormatter have the canonical forms decimals = n - 1 - floor(log10 sigma) (recomputed after rounding sigma) and value digits = decimals + "
                 "floor(log10|x|) + 1, uncertainties are printed with exactly n significant digits; the regular expression that rewrites scientific notation for LaTeX "
-                "can consume every exponent a double can have (language membership on the parsed regex literal) and both number-printing formatters apply it.",
+                "can consume every exponent a double can have (language membership on the parsed regex literal) and both number-printing formatters apply it. Added: zero guards of every log10 in the compact table; positional mappings keep their order in the file.",
         "note": "The rounding arithmetic itself (carry cases, half-unit bounds over the float range, behaviour of %g) is numerical and is not decided; the formula rule fixes "
                 "the decimal-place expression, whose n-dependence was a genuine defect (fixed). The regex rule decides language membership only - not match priorities or "
                 "capture contents.",
@@ -84,7 +85,7 @@ CLAIMED = {
                 "receive the role properties in the documented slots; the plotted uncertainty is sqrt(sum yerr^2 + Poisson term^2); ratio / residual / pull and the "
                 "three band formulas have the documented canonical forms; the curve and the band are evaluated at the same support points; the info box refreshes "
                 "the described fit's formatters in the same iteration before printing them and prints cost, ndf, goodness of fit and probability read from the same "
-                "fit (multi-fit numbers from the multi-fit).",
+                "fit (multi-fit numbers from the multi-fit). Added: the histogram density curve is scaled with n_entries (transitive reads, through helpers of the adapter and of the fit), never with an in-range count.",
         "note": "Coordinates of matplotlib artists, log axes, figure layout and the numerical value of the error band are not decided. The role agreements rely on the "
                 "naming convention of FitBase's public attributes (x_/y_ prefixes, *_error, data/model).",
         "technique": "name-derived role tables + call-slot tables + canonical-form comparison + CFG dominance with loop-scope condition",
@@ -95,7 +96,7 @@ CLAIMED = {
                 "- explicit escaping raise, same-object call that may reject (depth 2), or call into a validator table confirmed by reading - is reachable "
                 "after a node with a state write (interprocedural effects; refreshes inside getters and listed cache/scratch fields do not count) unless a "
                 "handler rolls the write back (rollback idioms recognised structurally). Plus a guard-presence table of 44 (entry point, exception, tested "
-                "quantity) instances for every invalid-input class named in the statement, matched on the guarding condition with local temporaries expanded.",
+                "quantity) instances for every invalid-input class named in the statement, matched on the guarding condition with local temporaries expanded. Added: closure-style decorators are modelled (statements the wrapper runs before calling the method count as writes before validation).",
         "note": "Decides: rejected calls cannot have committed state earlier on the same path; the named guards exist. Does not decide that a guard's "
                 "predicate is complete for the long tail of malformed values. Library calls (list.index, numpy) are rejection points only where the guard "
                 "table says so. Two genuine defects (Nexus.add, Nexus.add_function) are recorded as known findings; reasoned exemptions are in kv/rules/c19.py.",
@@ -109,7 +110,7 @@ CLAIMED = {
                 "chi2_probability subtracts (D2); the pointwise twin keeps the effective flags (D3); implicit arguments are appended and stripped symmetrically "
                 "(D4); y-only XY variants wire y_ nodes only (D5); invalidation callbacks are stored in fields that are read and both containers are hooked (D6); "
                 "normalised axis used (D8); the node bound to `model` depends on the parameters (D9); implicit chi2_no_errors switch, tolerance-free diagonality "
-                "test and cost selection in do_fit (Dsw). Each rule is a necessary condition of 'cost = documented -2 log L of exactly the declared inputs'.",
+                "test and cost selection in do_fit (Dsw). Each rule is a necessary condition of 'cost = documented -2 log L of exactly the declared inputs'. Added: canonical forms of the projection of x uncertainties onto y (V_y + V_x o outer(f', f') with signed slopes; pointwise in quadrature), of total = data + model, and the wiring of the projected nodes.",
         "note": "Numerical equality of the QR/Cholesky chi2 with r^T V^-1 r, the formulas inside the handles and the numerical derivative of the x-projection "
                 "are not decided here. Known, not checked: histogram model-relative uncertainties are relative to the unscaled density integral (FIXME in "
                 "kafe2/fit/histogram/fit.py). MultiFit / CustomFit graphs are built from runtime objects and are outside the constant evaluator.",
@@ -122,7 +123,7 @@ CLAIMED = {
                 "lazy parameter push excluded) then N must lie in the dependents-closure of the nodes E marks on every normal path - including marks reached "
                 "through the container -> fit callback (Cnx); required graph edges (Cedge); reset of the minimizer clears the did-fit flag (Cfit); mutators drop "
                 "loaded results (Cload); the cost node is re-selected when the covariance shape can change (Cmin); the freeze protocol of do_fit is well "
-                "bracketed and nothing else freezes nodes (F5); getters write no configuration state (Cget).",
+                "bracketed and nothing else freezes nodes (F5); getters write no configuration state (Cget). Added: every fit getter that returns a parameter-dependent quantity of the parametric model pushes the current parameter values first (Cpush).",
         "note": "Equality with a freshly built fit as a numerical statement is not decided; exception paths through the backend between freeze and unfreeze "
                 "are out of scope (the property speaks of fits that have run). MultiFit members keep multi-fit results after member-level setters (not checked). "
                 "Reasoned exemptions in kv/rules/c03.py (READ_EXEMPT, WRITE_EXEMPT, ENTRY_EXEMPT).",
@@ -134,7 +135,7 @@ CLAIMED = {
                 "model, both constraint classes and MultiFit equals data points - parameters + fixed + constraint measurements; chi2 probability is "
                 "1 - chi2.cdf(cost - determinant, ndf) and every determinant subtraction in FitBase/MultiFit.chi2_probability is guarded by the flag saying "
                 "the cost contains that term; goodness of fit = full cost with zeroed determinant minus the handle at model := data (argument positions "
-                "looked up by the cost function's own names), the Gaussian-approximation override restores its flag; MultiFit overrides keep the base terms.",
+                "looked up by the cost function's own names), the Gaussian-approximation override restores its flag; MultiFit overrides keep the base terms. Added: is_diagonal is exact (no tolerance); MultiFit.goodness_of_fit contains the constraint cost of the MultiFit and of members covered by the shared cost.",
         "note": "Numerical values are not decided. A formula rewritten with symbols the specification does not mention is reported as ANALYSIS-ERROR "
                 "(cannot be judged), never as a violation; a dropped/changed term, coefficient, sign or argument order is a violation.",
         "technique": "expression normalisation to canonical polynomial forms + structural guard rules (no paths, no solver)",
@@ -146,7 +147,7 @@ CLAIMED = {
                 "formula per guarded branch; each conversion pair composes to the identity in exact rational arithmetic; all relative <-> absolute conversions of simple "
                 "errors use the magnitude of the reference while the covariance uses the signed product (so that it equals the explicit (sigma sigma^T) o rho matrix); "
                 "every add_error implementation broadcasts a scalar to the constant vector of the data size; every wrapper keyword *_error[_cor][_rel] is forwarded with "
-                "exactly the axis / correlated / relative flags its name states; the percent shorthand becomes percent/100 relative, plain entries absolute.",
+                "exactly the axis / correlated / relative flags its name states; the percent shorthand becomes percent/100 relative, plain entries absolute. Added: the generic wrapper writes start values before fixing parameters and fits last (S-order); when the branching of a conversion getter was rewritten every assignment must still be one of the documented forms.",
         "note": "Decides the conversion formulas and the keyword/flag wiring, not the floating-point identity of the resulting fits (rounding differences between e.g. "
                 "x*r/r and x are outside the rule). Unknown vocabulary in a changed formula is reported as analysis error, never as a violation.",
         "technique": "expression normalisation to canonical forms per guarded branch + call-site keyword tables",
@@ -160,7 +161,7 @@ CLAIMED = {
                 "instantiating n = 2 and Q(1, x) = exp(-x) yields exactly the contour level used for iminuit; setters clear the other representation; every "
                 "ConfidenceLevel call site has the dimension of its context; in each of the four branches of the arrow computation the displayed tail "
                 "probability and the level converted to sigma agree (central vs one-sided) and the cost target is min + sigma^2; argument-slot rule (F1) on "
-                "the 265 resolved call sites of the profile/contour call chain.",
+                "the 265 resolved call sites of the profile/contour call chain. Added: the conversions are compared per `ndim == k` branch using the identities of the chi2 / normal special functions (chdtr, chdtri, erf, erfinv, expm1, log1p are expressed through Q = gammaincc); the arrow rule evaluates _get_arrow_specs path-sensitively over the None-ness of (low, high, cl) with helper inlining.",
         "note": "Trusted base: the extraction step (ast + temporaries inlining) and scipy.special.gammaincc/gammainccinv being the regularised upper incomplete "
                 "gamma function and its inverse in the second argument. Monotonicity and the tabulated 68.27/95.45/99.73 % follow from the CDF identity and "
                 "are not re-derived numerically. A branch structure of the arrow computation that the rule cannot read is ANALYSIS-ERROR, not a violation.",
@@ -174,7 +175,7 @@ CLAIMED = {
                 "stored optimum); _save_state() precedes every mover and dominates every _load_state(); a temporary fix(p) is released on all paths (also in "
                 "the nested profile closure); all problem-changing operations invalidate the adapter caches; _invalidate_cache covers every lazily computed "
                 "field; the did-fit flag is written only by reset/minimize/_load_state; save/load key symmetry; NexusFitter re-evaluates the graph at the "
-                "final parameters after minimizing.",
+                "final parameters after minimizing. Added: snapshot completeness (every _save_state store is executed on all paths, also inside a table loop).",
         "note": "'Up to the minimizer tolerance' as a number is not decided; iminuit's minimize() lacks scipy's explicit graph write-back - triaged against "
                 "the running code as a ~1e-13 difference and deliberately not armed. Exception paths (RuntimeError from the backend) are not bracketed.",
         "technique": "CFG post-dominance / dominance pairing rules (excursion -> restore, save -> load, fix -> release) + cache-invalidation must-call rules",
@@ -187,7 +188,7 @@ CLAIMED = {
                 "for every bin and every density by linearity and affine change of variable. Bin centres and widths are (a+b)/2 and b-a over the same edge "
                 "slices; the antiderivative path is F(b) - F(a) at the current parameters; numerical integration runs over the same (a, b) pairs; the string "
                 "-> rule selection table; recalculation stores the rule's result in the bin slice and clears the stale flag; HistFit.model scales by the number "
-                "of entries iff the model is a density; the model is rebuilt from the current container on every path.",
+                "of entries iff the model is a density; the model is rebuilt from the current container on every path. Added: every iteration of the numerical bin loop integrates its bin (no guard / continue before the store); the density scale may live in a helper of the fit.",
         "note": "Trusted base: extraction/normalisation (kv.termform) and numpy slicing semantics of [:-1] / [1:]. Accuracy of scipy.integrate.quad and "
                 "convergence orders for non-polynomial densities are not decided.",
         "technique": "canonical-form weight extraction + exact rational moment identities; structural selection/rebuild rules",
@@ -203,7 +204,7 @@ CLAIMED = {
                 "path, sets a given value before fixing, and re-evaluates the graph at the backend's final values; the iminuit adapter rebuilds the Minuit object from "
                 "the stored specification with value, fixed flag and limits of every parameter (a guarded application is accepted only if release rebuilds or re-applies), "
                 "every mutator updates the specification; the scipy adapter packs free parameters and unpacks the result through one index map, passes the bounds of the "
-                "free parameters, writes the result back, and stores parameter values as floats.",
+                "free parameters, writes the result back, and stores parameter values as floats. Added: a re-created fitter inherits fixed and limited parameters; class-level node lists are never mutated through list-returning helpers; the scipy bounds store stays a list of tuples.",
         "note": "Local minimality of the reported optimum, agreement of the backends, and the fixed-point property of the iterative treatment are numerical statements "
                 "about MIGRAD / scipy.optimize and are not decided. The index-map rule is a shape rule on MinimizerScipyOptimize.minimize (the expressions are compared "
                 "as written after whitespace normalisation).",
@@ -216,7 +217,7 @@ CLAIMED = {
                 "symmetrised, the scipy adapter unpacks with the index arrays it packed with; correlation = cov / outer(sigma, sigma) on the free sub-block, "
                 "symmetric errors = sqrt(diag(cov)); asymmetric errors are cost cuts at minimum + 1 measured from the optimum, the cut function is cost - "
                 "target with the parameter pinned and the rest re-minimised, contour levels are minimum + sigma^2; error band = sqrt(p^T C p) with one mask "
-                "for derivatives and covariance; argument-slot rule (F1) on 594 resolved call sites of the minimizer / fitter / profiler / xy classes.",
+                "for derivatives and covariance; argument-slot rule (F1) on 594 resolved call sites of the minimizer / fitter / profiler / xy classes. Added: every state snapshot overwrites every cached result entry (S-snap); the error band is allocated as float.",
         "note": "That the Hessian is the Hessian of the actual cost, that the backend's profile/contour points are converged, and all numerical values are "
                 "not decided. Several bookkeeping rules match normalised statement text of the anchor functions; a rewrite of those functions shows up as a "
                 "failed obligation and needs re-triage.",
@@ -229,7 +230,7 @@ CLAIMED = {
                 "written - 103 key obligations; (E3) no two keys written from the same expression; (E4) values stored flag-dependently are written through the "
                 "accessor selected by the serialised flag; (E5) per-source state used by the total (object, axis, enabled) is written, restored and applied, both "
                 "'load results' sites apply the stored parameter values; (E6) truncate(0) dominates every write on the append-mode handle and every writer uses "
-                "that write; (E7) the three shorthand expanders accept the same scalar types; (E8) reader-side installs are followed by the fit's own invalidation.",
+                "that write; (E7) the three shorthand expanders accept the same scalar types; (E8) reader-side installs are followed by the fit's own invalidation. Added: flags / numbers are never dropped by a truthiness test in a reader (E11); stored parameter values are applied after re-fixing (E12); mappings the reader turns into a list are written in source order (E13); every constructor setting stored on a fit is written and restored, the implicit no-errors state is written as the default identifier (E14, E5).",
         "note": "Value-level round-trip equality, second-cycle idempotence and refit equality are dynamic and not decided. Two genuine defects are recorded as "
                 "known findings (CostFunction / FunctionFormatter offer to_file without any representer).",
         "technique": "table extraction from ast (registrations, type tables, written/consumed key sets) + set agreement; CFG dominance for truncation",
